@@ -478,3 +478,71 @@ def z_r5_offset_sign(p: Project, rep: Report):
         for hs, want in ((NEG, (NEG,)), (POS, (POS,))):
             got = sign_of(r.value, {params[0]: hs, params[1]: POS}, fn)
             rep.check("Z-R5", f"gmt_offset:return#{i}:hours-{hs}", got in want, f"with {hs.lower()} hours and positive minutes the offset evaluates to sign {got} (expected {want[0]}): the minutes are not given the sign of the hours, so [-3.30] is read as -2:30" if got not in want else "", f"{rel}:{r.lineno}")
+
+
+EXTREME_DATES = ("datetime.date.min", "datetime.date.max", "datetime.datetime.min", "datetime.datetime.max", "date.min", "date.max")
+
+
+def z_r6_carrier_date(p: Project, rep: Report):
+    rep.rule("Z-R6", "a time of day is moved to GMT by datetime arithmetic on a carrier date: the carrier must leave room for the largest offset on both sides (never date.min / date.max / year 1 / year 9999), or `dt - offset` overflows for offsets that cross midnight at the edge of the calendar")
+    from .flat import flat
+
+    ci = p.get_class(TYPES, "Time")
+    attrs = {}
+    for st in ci.node.body:
+        if isinstance(st, (ast.Assign, ast.AnnAssign)) and st.value is not None:
+            t = st.targets[0] if isinstance(st, ast.Assign) else st.target
+            if isinstance(t, ast.Name):
+                attrs[t.id] = st.value
+    n = 0
+    for name, (kind, fn0) in ci.attrs.items():
+        if kind != "func":
+            continue
+        fn = flat(p, TYPES, fn0, ci)
+        ex = Expander(fn)
+        for c in own_nodes(fn):
+            if not isinstance(c, ast.Call):
+                continue
+            ft = text(c.func)
+            carrier = None
+            if ft.endswith("datetime.combine") and c.args:
+                carrier = c.args[0]
+            elif ft in ("datetime.datetime", "datetime") and len(c.args) >= 3:
+                carrier = c.args[0]
+            if carrier is None:
+                continue
+            n += 1
+            v = ex.x(carrier)
+            if isinstance(v, ast.Attribute) and isinstance(v.value, ast.Name) and v.value.id in ("self", "cls", ci.name) and v.attr in attrs:
+                v = attrs[v.attr]
+            tv = text(v)
+            bad = tv in EXTREME_DATES or (isinstance(v, ast.Constant) and isinstance(v.value, int) and (v.value <= 1 or v.value >= 9999)) or tv in ("datetime.MINYEAR", "datetime.MAXYEAR")
+            if isinstance(v, ast.Call) and text(v.func).endswith("date") and v.args and isinstance(v.args[0], ast.Constant) and isinstance(v.args[0].value, int):
+                bad = v.args[0].value <= 1 or v.args[0].value >= 9999
+            rep.check("Z-R6", f"Time.{name}:carrier-date", not bad, f"the time of day is placed on {tv} before the offset arithmetic: for an offset that crosses midnight the result falls outside the calendar and the conversion raises OverflowError" if bad else "", tloc(p, c))
+    if n == 0:
+        rep.note("Z-R6 undecided: no carrier datetime recognised in Time")
+
+
+def z_r7_aware_values_kept(p: Project, rep: Report):
+    rep.rule("Z-R7", "an aware datetime / time given to the converter stays the instant it is: the reader for the native type returns its argument itself (or an .astimezone() of it) on every returning path; relabelling it with .replace(tzinfo=...) is a violation (08:15-05:00 would become 08:15 UTC)")
+    scal, _types = scalar_types(p)
+    n = 0
+    for name, key in (("DateTime", "datetime.datetime"), ("Time", "datetime.time")):
+        fam = D.family(scal[name], "convert")
+        h = fam.handler_for_native(key) if fam else None
+        if h is None or h.key == D.DEFAULT:
+            rep.note(f"Z-R7 undecided: {name} has no reader registered for {key}")
+            continue
+        vp = h.value_param()
+        rps, _ = h.return_paths()
+        for i, (pth, rtxt, sc) in enumerate(rps):
+            n += 1
+            if rtxt == vp or rtxt.startswith(f"{vp}.astimezone("):
+                rep.check("Z-R7", f"{name}.convert[{key}]:return#{i}", True, "", tloc(p, h.fn))
+            elif f"{vp}.replace(" in rtxt and "tzinfo" in rtxt:
+                rep.check("Z-R7", f"{name}.convert[{key}]:return#{i}", False, f"{h.qualname} returns {rtxt}: the wall-clock fields are kept and the zone is replaced, so a value with a non-zero offset is turned into a different instant", tloc(p, h.fn))
+            else:
+                rep.note(f"Z-R7 undecided: {h.qualname} returns {rtxt[:80]}")
+    if n == 0:
+        rep.note("Z-R7 undecided: no returning path in the native readers")
